@@ -168,6 +168,10 @@ fn value(p: &mut Parser<'_>, skip: Skip) -> Result<Option<Checkpoint<PointerU32>
             let c = p.checkpoint()?;
             p.bump()?;
 
+            // The outer skip has been consumed above, count what follows the
+            // opening parenthesis.
+            let skip = p.count_skip();
+
             let skip = match operation(p, skip)? {
                 Some(skip) => skip,
                 None => return Ok(None),
